@@ -53,6 +53,15 @@ theorem checkPage_eq_source (ph : PHdr) (defs reps : Bool) :
     by_cases h1 : ph.ty = 0 <;> by_cases h2 : enc = 0 <;> by_cases h3 : denc = 3 <;> by_cases h4 : renc = 3 <;>
       cases defs <;> cases reps <;> simp [h1, h2, h3, h4]
 
+/-- `pageData` of the working tree switches on exactly the codecs the model handles, and refuses the rest
+(`Facts.pageDataCodecs` and `pageDataDefaultErrors` are regenerated from fields.go on every run) -/
+theorem pageData_codecs_source : PQ.Gen.Facts.pageDataTranslated = true ∧ PQ.Gen.Facts.pageDataDefaultErrors = true ∧
+    ∀ c : Int, c ∈ PQ.Gen.Facts.pageDataCodecs ↔ (c = 0 ∨ c = 1 ∨ c = 2) := by
+  refine ⟨by decide, by decide, ?_⟩
+  intro c
+  simp only [PQ.Gen.Facts.pageDataCodecs, List.mem_cons, List.not_mem_nil, or_false]
+  omega
+
 theorem checked_page_total (ph : PHdr) (defs reps : Bool) (h : checkPage ph defs reps = true) :
     ∃ nv, numValuesOf ph = .ok nv := by
   obtain ⟨_, nv, enc, denc, renc, st, hd, _⟩ := (checkPage_spec ph defs reps).mp h
